@@ -820,9 +820,18 @@ impl ErasedNode for Node {
             before computing it.  If [parent] has a single child (i.e. [node]), then
             this amounts to checking that [parent] won't be invalidated, i.e. that
             [parent]'s scope has already stabilized. */
-            Kind::BindLhsChange { .. } => child.height() > parent.created_in.height(),
+            //
+            // [child] may itself have been recomputed directly, ahead of lower nodes that are
+            // still in the recompute heap, so its height says nothing about how far the heap
+            // has progressed. The scope has stabilised only if nothing at or below the scope's
+            // height is still queued.
+            Kind::BindLhsChange { .. } => {
+                child.height() > parent.created_in.height()
+                    && state.recompute_heap.min_height() > parent.created_in.height()
+            }
             Kind::MapRef(_) | Kind::MapWithOld(_) | Kind::Map(_) => {
                 child.height() > parent.created_in.height()
+                    && state.recompute_heap.min_height() > parent.created_in.height()
             }
             // | Freeze _ -> node.height > Scope.height parent.created_in
             // | If_test_change _ -> node.height > Scope.height parent.created_in
@@ -835,7 +844,10 @@ impl ErasedNode for Node {
             {[
             node.height > Scope.height parent.created_in
             ]} */
-            Kind::BindMain { lhs_change, .. } => child.height() > lhs_change.height(),
+            Kind::BindMain { lhs_change, .. } => {
+                child.height() > lhs_change.height()
+                    && state.recompute_heap.min_height() > lhs_change.height()
+            }
             // | Kind::If_then_else i -> node.height > i.test_change.height
             // | Join_main j -> node.height > j.lhs_change.height
         };
